@@ -103,6 +103,37 @@ func (e *Env) present(act string, args J, emptyAsNil bool) J {
 	return out
 }
 
+// inputsWritten names the first parameter whose octets in the caller's buffer differ from the value that was passed (a
+// function of the value reads its inputs; decrypting in place is the one thing a callee may legitimately do to an input).
+func (e *Env) inputsWritten(act string, args J) string {
+	if act == "cipher_decrypt" || e.arena == nil {
+		return ""
+	}
+	buf := e.arena[act]
+	if buf == nil {
+		return ""
+	}
+	off := 0
+	for _, k := range arenaKeys[act] {
+		v, has := args[k]
+		if !has {
+			continue
+		}
+		o, err := anyToOct(v)
+		if err != nil || len(o) == 0 {
+			continue
+		}
+		if off+len(o) > e.used[act] {
+			break
+		}
+		if string(buf[off:off+len(o)]) != string(o) {
+			return k
+		}
+		off += len(o)
+	}
+	return ""
+}
+
 // scribble overwrites the parameters of the call that just returned (not the twin copy behind them).
 func (e *Env) scribble(act string) {
 	if buf := e.arena[act]; buf != nil {
